@@ -123,6 +123,15 @@ CHECKS = {
          'parsing the output with capture must give the same tree and the same comment values in traversal order (refjs re-reads the output).',
     note=TRUSTED + 'refjs scanner comment log; dropped (never captured) source comments are allowed by the documented limitation and only counted.',
     design='DESIGN.md section 3, C13'),
+ 'C08': dict(
+    technique='fragment monitor on the generators returned by the real printers: each positioned StreamFragment checked against the reference token/comment log of the source file it names',
+    level='exploration',
+    text='The fragments yielded by pretty, minify, minify+drop_semi and two obfuscating printers are consumed directly; every fragment with a '
+         'truthy line/column must point, in the file it names (or inherits), at the token equal to its text (modulo continuation stripping, '
+         'comma runs of elisions) or at the recorded original name when renamed. Multi-file: 2-4 sources with padding printed in sequence, as '
+         'one combined tree, and nested (statement / expression of file B inside file A). Only lexer-synthesised semicolons (hooked) are exempt.',
+    note=TRUSTED + 'refjs token log of each source; cases on which the two trees differ are skipped and counted.',
+    design='DESIGN.md section 3, C08'),
 }
 
 PENDING = 'monitor planned in DESIGN.md section 3 but not built yet in this round; no claim is made'
